@@ -606,12 +606,110 @@ def forall_guards(prog, f, its, B):
                     reach = f.reachable_from(bad)
                     if B not in reach and it.bb not in reach:
                         out.append({"it": it, "cmp": norm_cmp(holds), "how": "the loop leaves the function as soon as an element violates it"})
-    # conjunction flags tested on their true edge
+    # flags (all(..) results are handled above; conjunction and violation flags here) tested on their true edge
+    flags = forall_flags(prog, f, its)
     for sb, st in f.switches():
         s = an.switch_subject(f, sb)
         if s["kind"] != "value" or s["root"] is None or not an.dominated_by_edge(f, sb, st["otherwise"], B):
             continue
+        fl = flags.get(s["root"]) or flags.get(f.copy_root(s["root"]))
+        if fl is not None and fl["how"] != "all(..)":
+            out.append({"it": fl["it"], "cmp": fl["cmp"], "how": fl["how"] + " is true"})
+    return out
+
+
+def _cmp_of_switch(f, it, sb, st):
+    """(comparison, true target, false target) decided by the switch at sb inside the body of loop `it`, else None"""
+    s = an.switch_subject(f, sb)
+    if s["kind"] != "value" or s["root"] is None:
+        return None
+    d = f.single_def(s["root"])
+    c = None
+    if d and d[0] == "assign" and d[3]["k"] == "binop" and d[3]["op"] in CMP_OPS:
+        c = (d[3]["op"], it.elem_path(d[3]["l"]), it.elem_path(d[3]["r"]))
+    elif d and d[0] == "call" and (d[2]["callee"].get("path") or "") in CMP_CALLS and len(d[2]["args"]) == 2:
+        c = (CMP_CALLS[d[2]["callee"]["path"]], it.elem_path(d[2]["args"][0]), it.elem_path(d[2]["args"][1]))
+    elif d and d[0] == "assign" and d[3]["k"] == "unop" and d[3]["op"] == "Not":
+        l2 = op_local(d[3]["operand"])
+        d2 = f.single_def(f.copy_root(l2)) if l2 is not None else None
+        if d2 and d2[0] == "assign" and d2[3]["k"] == "binop" and d2[3]["op"] in CMP_OPS:
+            c = (NEG[d2[3]["op"]], it.elem_path(d2[3]["l"]), it.elem_path(d2[3]["r"]))
+        elif d2 and d2[0] == "call" and (d2[2]["callee"].get("path") or "") in CMP_CALLS and len(d2[2]["args"]) == 2:
+            c = (NEG[CMP_CALLS[d2[2]["callee"]["path"]]], it.elem_path(d2[2]["args"][0]), it.elem_path(d2[2]["args"][1]))
+    if c is None:
+        return None
+    return c, st["otherwise"], an.edge_target(st, 0)
+
+
+def forall_flags(prog, f, its):
+    """{local: dict(it, cmp, how)}: boolean locals of f that are true only if `cmp` holds for every element of an iteration:
+    the result of all(..), a conjunction flag, and a violation flag (`let mut ok = true; for x in it { if !cmp(x) { ok = false; break } }`)"""
+    from facts import const_val
+    out = {}
+    for it in its:
+        if it.parent is not f:
+            continue
+        if it.kind == "closure" and it.consumer == "all":
+            c = _closure_single_cmp(it)
+            d = an.call_dest_local(it.term)
+            if c is not None and d is not None:
+                out[d] = {"it": it, "cmp": norm_cmp(c), "how": "all(..)"}
+        if it.kind != "loop":
+            continue
+        # violation flags: cleared inside the body, or on the way out of the loop (`ok = false; break`)
+        after = f.reachable_from(it.none_t)
+        exits = it.early_exits()
+        exit_regions = {}
+        for (b, s_) in exits:
+            exit_regions[(b, s_)] = {x for x in f.reachable_from(s_) if x not in after and x not in it.loop_blocks}
+        region_all = set(it.blocks)
+        for r_ in exit_regions.values():
+            region_all |= r_
+        cands = {}
+        for b, i, p, rv, s_ in f.assigns():
+            if b in region_all and not p[1] and rv["k"] == "use" and const_val(rv["op"]) is False:
+                cands.setdefault(p[0], []).append(b)
+        for fl, blocks in cands.items():
+            ds = f.defs.get(fl, [])
+            outs = [x for x in ds if x[1] not in region_all]
+            ins = [x for x in ds if x[1] in region_all]
+            if len(outs) != 1 or len(ins) + 1 != len(ds) or not f.dominates(outs[0][1], it.bb):
+                continue
+            if not (outs[0][0] == "assign" and outs[0][3]["k"] == "use" and const_val(outs[0][3]["op"]) is True):
+                continue
+            if not all(x[0] == "assign" and x[3]["k"] == "use" and const_val(x[3]["op"]) is False for x in ins):
+                continue
+            holds = set()
+            ok = True
+            for b in blocks:
+                found = None
+                for sb, st in it.switches():
+                    r = _cmp_of_switch(f, it, sb, st)
+                    if r is None:
+                        continue
+                    c, t_true, t_false = r
+                    if an.dominated_by_edge(f, sb, t_true, b):
+                        found = (NEG[c[0]], c[1], c[2])
+                    elif an.dominated_by_edge(f, sb, t_false, b):
+                        found = c
+                if found is None:
+                    ok = False
+                else:
+                    holds.add(norm_cmp(found))
+            # leaving the loop early is only possible through a path that clears the flag
+            for (b, s_), reg in exit_regions.items():
+                joins = [x for x in after if any(p_ in reg or p_ == b for p_ in f.pred.get(x, []))]
+                reach_without = f.reachable_from(s_, avoid=set(blocks))
+                if any(j in reach_without for j in joins) and not any(f.dominates(fb, b) for fb in blocks if fb in it.blocks):
+                    ok = False
+            if ok and len(holds) == 1:
+                out[fl] = {"it": it, "cmp": next(iter(holds)), "how": "violation flag cleared at the first element that breaks it"}
+    # conjunction flags
+    for sb, st in f.switches():
+        s = an.switch_subject(f, sb)
+        if s["kind"] != "value" or s["root"] is None or s["root"] in out:
+            continue
         cf = conj_flag(prog, f, its, s["root"])
         if cf is not None and cf["form"] in ("fold", "loop") and cf["own"] and cf["init"] is True and len(cf["cmps"]) == 1 and not cf["calls"]:
-            out.append({"it": cf["it"], "cmp": norm_cmp(cf["cmps"][0]), "how": "conjunction flag (%s form) is true" % cf["form"]})
+            out[s["root"]] = {"it": cf["it"], "cmp": norm_cmp(cf["cmps"][0]), "how": "conjunction flag (%s form)" % cf["form"]}
     return out
